@@ -40,6 +40,38 @@ enum Entry {
     /// not a use of the keyspace: the moment the group's hourly tombstone sweep comes due
     /// (virtual time moves one hour), as a schedulable step
     SweepDue,
+    /// the public `put`, abandoned by its caller after being polled this many times (a call
+    /// wrapped in a timeout, an RPC handler whose client hung up); never acknowledged
+    PutAbandoned(u8),
+}
+
+/// Polls `inner` at most `left` times, then gives up and drops it.
+struct PollAtMost<F> {
+    inner: Option<std::pin::Pin<Box<F>>>,
+    left: u8,
+}
+
+impl<F: std::future::Future> std::future::Future for PollAtMost<F> {
+    type Output = Option<F::Output>;
+    fn poll(mut self: std::pin::Pin<&mut Self>, cx: &mut std::task::Context<'_>) -> std::task::Poll<Self::Output> {
+        if self.left == 0 {
+            self.inner = None;
+            return std::task::Poll::Ready(None);
+        }
+        self.left -= 1;
+        match self.inner.as_mut().expect("polled after completion").as_mut().poll(cx) {
+            std::task::Poll::Ready(v) => std::task::Poll::Ready(Some(v)),
+            std::task::Poll::Pending => {
+                if self.left == 0 {
+                    // the caller walks away now: the future is dropped where it is parked
+                    self.inner = None;
+                    std::task::Poll::Ready(None)
+                } else {
+                    std::task::Poll::Pending
+                }
+            },
+        }
+    }
 }
 
 const PEER_DOC: u64 = 50;
@@ -55,6 +87,9 @@ struct Obs {
     in_final_set: Vec<u64>,
     /// ids live in storage
     in_storage: Vec<u64>,
+    /// ids a fresh peer node holds after one real repair cycle against this node ("the set
+    /// that peers later synchronise against": what the node advertises and serves)
+    pulled_by_peer: Vec<u64>,
     errors: Vec<String>,
     /// sweep scenarios: the document written before the tasks started is no longer in the set
     earlier_content_lost: bool,
@@ -177,6 +212,11 @@ fn run_one_mode(paths: &[Entry], prefix: &[usize], fine: bool, mode: u8) -> (Run
                             tokio::time::advance(std::time::Duration::from_secs(3600)).await;
                             Ok(false)
                         },
+                        Entry::PutAbandoned(k) => {
+                            let call = store.put(my_ks, id, vec![id as u8], Consistency::None);
+                            let _ = PollAtMost { inner: Some(Box::pin(call)), left: k }.await;
+                            Ok(false)
+                        },
                     };
                     match res {
                         Ok(true) => acked.borrow_mut().push(id),
@@ -214,6 +254,24 @@ fn run_one_mode(paths: &[Entry], prefix: &[usize], fine: bool, mode: u8) -> (Run
         obs.in_final_set.sort();
         obs.in_final_set.dedup();
         obs.in_storage.sort();
+        // a fresh peer runs one real repair cycle against this node
+        {
+            let mut puller = Node::start(3, "dc", Arc::new(MemStore::default())).await;
+            puller.set_membership(&[(3, "dc".into())]).await;
+            puller.repair_from(&[1]).await;
+            let mut names: Vec<&'static str> = (0..paths.len()).map(ks_of).collect();
+            names.sort();
+            names.dedup();
+            for name in names {
+                match read_rows(puller.storage.as_ref(), name).await {
+                    Ok(rows) => obs.pulled_by_peer.extend(rows.iter().filter(|(k, (_, d))| d.is_some() && **k != PRE_DOC).map(|(k, _)| *k)),
+                    Err(e) => obs.errors.push(e),
+                }
+            }
+            obs.pulled_by_peer.sort();
+            obs.pulled_by_peer.dedup();
+            drop(puller);
+        }
         drop(peer);
         (run, obs)
     };
@@ -297,6 +355,20 @@ fn judge(paths: &[Entry], run: &Run, obs: &Obs, st: &mut Stats) {
             case,
         );
     }
+    let not_pulled: Vec<u64> = obs.acked.iter().copied().filter(|id| !obs.pulled_by_peer.contains(id)).collect();
+    if !not_pulled.is_empty() && missing.is_empty() {
+        st.violation_ranked(
+            "acknowledged-write-not-offered-to-a-repairing-peer",
+            rank,
+            || {
+                format!(
+                    "writes {:?} were acknowledged and are in the node's set {:?}, but a fresh peer that ran a repair cycle against the node holds only {:?}",
+                    obs.acked, obs.in_final_set, obs.pulled_by_peer
+                )
+            },
+            case,
+        );
+    }
     if obs.earlier_content_lost {
         st.violation_ranked(
             "earlier-content-missing-from-the-keyspace-set",
@@ -305,11 +377,22 @@ fn judge(paths: &[Entry], run: &Run, obs: &Obs, st: &mut Stats) {
             case,
         );
     }
-    if obs.in_storage != obs.acked {
+    // an abandoned call was never acknowledged but may have taken effect all the same
+    let optional: Vec<u64> = paths.iter().enumerate().filter(|(_, p)| matches!(p, Entry::PutAbandoned(_))).map(|(i, _)| i as u64 + 1).collect();
+    let in_storage: Vec<u64> = obs.in_storage.iter().copied().filter(|id| !optional.contains(id)).collect();
+    if let Some(id) = obs.in_storage.iter().find(|id| optional.contains(id) && !obs.in_final_set.contains(id)) {
+        st.violation_ranked(
+            "abandoned-write-in-storage-but-not-in-the-keyspace-set",
+            rank,
+            || format!("the abandoned put of id {id} reached storage, but the set a new lookup returns holds {:?}", obs.in_final_set),
+            case,
+        );
+    }
+    if in_storage != obs.acked {
         st.violation_ranked(
             "storage-and-acknowledgements-differ",
             rank,
-            || format!("acknowledged {:?}, storage holds {:?}", obs.acked, obs.in_storage),
+            || format!("acknowledged {:?}, storage holds {:?}", obs.acked, in_storage),
             case,
         );
     }
@@ -401,6 +484,24 @@ pub fn run(tier: Tier) -> i32 {
         summary.prefix_misfits += sum.prefix_misfits;
         summary.capped |= sum.capped;
     }
+    // a first user that is abandoned by its caller part-way (polled k times, then dropped)
+    // next to first users that complete (added after the seeded change C18-h)
+    let mut abandoned_execs = 0u64;
+    for k in 1..=tier.pick(6u8, 9) {
+        for partner in [Entry::Put, Entry::Rpc, Entry::Direct, Entry::GetState] {
+            let paths = vec![Entry::PutAbandoned(k), partner, Entry::Put];
+            let cfg = ExploreCfg { max_deviations: Some(tier.pick(2, 3)), max_executions: 2_000_000, determinism_check_every: 53 };
+            let (st, sum) = e2::explore(&cfg, |p| run_one(&paths, p, false), |st, run, obs| judge(&paths, run, obs, st));
+            abandoned_execs += sum.executions as u64;
+            total.merge(st);
+            summary.executions += sum.executions;
+            summary.max_steps = summary.max_steps.max(sum.max_steps);
+            summary.deadlocks += sum.deadlocks;
+            summary.nondeterministic += sum.nondeterministic;
+            summary.prefix_misfits += sum.prefix_misfits;
+            summary.capped |= sum.capped;
+        }
+    }
     // concurrent first uses of two *different* fresh keyspaces (registering one must not lose
     // the other; added after the seeded change C18-f): pairs over all schedules, and
     // fine-grained with the deviation bound
@@ -462,6 +563,7 @@ pub fn run(tier: Tier) -> i32 {
     report.guard(distinct_execs > 100, "the two-fresh-keyspaces scenarios did not run");
     report.cover("sweep_scenarios", sweep_scenarios.len());
     report.cover("sweep_executions", sweep_execs);
+    report.cover("abandoned_first_user_executions", abandoned_execs);
     report.cover("fresh_keyspace_sweep_scenarios", fresh_sweep_scenarios.len());
     report.cover("fresh_keyspace_sweep_executions", fresh_sweep_execs);
     report.guard(fresh_sweep_execs > fresh_sweep_scenarios.len() as u64 * 3, "the tombstone sweep does not interleave with first uses");
@@ -487,6 +589,7 @@ pub fn replay(case: &J) -> i32 {
             "GetState" => Some(Entry::GetState),
             "Repair" => Some(Entry::Repair),
             "SweepDue" => Some(Entry::SweepDue),
+            p if p.starts_with("PutAbandoned(") => p["PutAbandoned(".len()..p.len() - 1].parse().ok().map(Entry::PutAbandoned),
             _ => None,
         })
         .collect();
